@@ -8,6 +8,7 @@ import PygModel.Wrap
 import PygProofs.Lemmas.BindLemmas
 import PygProofs.Lemmas.ResDec
 import PygProofs.Lemmas.WrapLemmas
+import PygProofs.Lemmas.CacheLemmas
 
 namespace Pyg.Props.C18
 open Pyg
@@ -268,5 +269,78 @@ theorem spec_forwarded (env : Nat → Sig) (ds : List (Cls × PDict)) (fn : Fn) 
   induction ds generalizing fn with
   | nil => rfl
   | cons d ds ih => simp only [List.foldl_cons]; rw [ih]; rfl
+
+/-! ## cache
+
+`callKey c` is the cache key of a call "as passed" (`_prehash((args, kwargs))` up to python's `==`): two calls
+are the same combination iff their keys are equal.  `runCache f {} calls` runs a history on a fresh cached
+function; `.evals` logs the key of every evaluation of `f`. -/
+
+/-- **A cached non-raising function is evaluated exactly once per distinct combination of positional and
+keyword arguments as passed, and returns the first result thereafter** — for every call history:
+the evaluation log has no repetition, it holds exactly the keys that were called, and every reply is `f` of the
+first call of the history with that key. -/
+theorem cache_once (g : Call → Val) (calls : List Call) :
+    let r := runCache (fun c => .ok (g c)) {} calls
+    r.1.evals.Nodup ∧ (∀ k, k ∈ r.1.evals ↔ k ∈ calls.map callKey) ∧
+    r.2 = calls.map fun c => Except.ok (g ((firstWith calls (callKey c)).getD c)) := by
+  have inv0 : CacheInv g {} [] := ⟨rfl, by simp, by simp, by intro k v h; simp at h⟩
+  obtain ⟨inv, hr⟩ := runCache_inv g calls {} [] inv0
+  simp only [List.nil_append] at inv hr
+  refine ⟨?_, ?_, hr⟩
+  · rw [inv.evals_eq]; exact inv.nodup
+  · intro k; rw [inv.evals_eq]; exact inv.keys k
+
+/-- in particular a repeated call is answered from the cache: same reply, no new evaluation -/
+theorem cache_repeat (g : Call → Val) (calls : List Call) (c : Call) (hc : c ∈ calls) :
+    let r := runCache (fun c => .ok (g c)) {} calls
+    let r' := runCache (fun c => .ok (g c)) {} (calls ++ [c])
+    r'.1.evals.length = r.1.evals.length ∧ r'.2.getLast? = some (.ok (g ((firstWith calls (callKey c)).getD c))) := by
+  have inv0 : CacheInv g {} [] := ⟨rfl, by simp, by simp, by intro k v h; simp at h⟩
+  obtain ⟨inv, _⟩ := runCache_inv g calls {} [] inv0
+  obtain ⟨inv', hr'⟩ := runCache_inv g (calls ++ [c]) {} [] inv0
+  simp only [List.nil_append] at inv inv' hr'
+  constructor
+  · -- both logs are duplicate-free lists with the same members
+    have h1 : ∀ k, k ∈ (runCache (fun c => .ok (g c)) {} (calls ++ [c])).1.evals ↔
+        k ∈ (runCache (fun c => .ok (g c)) {} calls).1.evals := by
+      intro k
+      rw [inv.evals_eq, inv'.evals_eq, inv.keys, inv'.keys]
+      simp only [List.map_append, List.map_cons, List.map_nil, List.mem_append, List.mem_singleton]
+      constructor
+      · rintro (h | h)
+        · exact h
+        · subst h; exact List.mem_map.2 ⟨c, hc, rfl⟩
+      · exact Or.inl
+    have n1 : (runCache (fun c => .ok (g c)) {} (calls ++ [c])).1.evals.Nodup := by
+      rw [inv'.evals_eq]; exact inv'.nodup
+    have n2 : (runCache (fun c => .ok (g c)) {} calls).1.evals.Nodup := by
+      rw [inv.evals_eq]; exact inv.nodup
+    exact Nat.le_antisymm
+      (List.Nodup.length_le_of_subset n1 fun k hk => (h1 k).1 hk)
+      (List.Nodup.length_le_of_subset n2 fun k hk => (h1 k).2 hk)
+  · rw [hr']
+    simp only [List.map_append, List.map_cons, List.map_nil, List.getLast?_append, List.getLast?_singleton,
+      Option.some_or]
+    obtain ⟨p, hp, hk⟩ : ∃ p, p ∈ calls ∧ (callKey p == callKey c) = true := ⟨c, hc, by simp⟩
+    have hs : ∃ c0, firstWith calls (callKey c) = some c0 := by
+      cases hf : firstWith calls (callKey c) with
+      | some c0 => exact ⟨c0, rfl⟩
+      | none =>
+        rw [firstWith_none_iff] at hf
+        exact absurd (List.mem_map.2 ⟨c, hc, rfl⟩) hf
+    obtain ⟨c0, hc0⟩ := hs
+    rw [firstWith_prefix calls [c] (callKey c) c0 hc0, hc0]
+
+/-- what "the same combination" means: `1`, `1.0` and `True` coincide, so do a list and the tuple of its elements,
+and keyword order is irrelevant; positional versus keyword passing is a different combination -/
+example :
+    callKey { args := [.cell (.int 1)], kw := [] } = callKey { args := [.cell (.flt 4)], kw := [] } ∧
+    callKey { args := [.cell (.int 1)], kw := [] } = callKey { args := [.cell (.bool true)], kw := [] } ∧
+    callKey { args := [.list [.cell (.int 1)]], kw := [] } = callKey { args := [.tuple [.cell (.int 1)]], kw := [] } ∧
+    callKey { args := [], kw := [("a", .cell (.int 1)), ("b", .cell (.int 2))] } =
+      callKey { args := [], kw := [("b", .cell (.int 2)), ("a", .cell (.int 1))] } ∧
+    callKey { args := [.cell (.int 1)], kw := [] } ≠ callKey { args := [], kw := [("a", .cell (.int 1))] } := by
+  decide +kernel
 
 end Pyg.Props.C18
